@@ -179,6 +179,14 @@ def r_buf_pairing(ctx):
                               first_line(ctx.project, cname))
 
 
+def _passes_suffice(upper) -> bool:
+    """the number of sweeps is len(<list>) + c with c >= -1: n - 1 full sweeps sort n values, fewer do not"""
+    from sa.decide import lin
+    l = lin(norm(upper))
+    lens = [t for t in l.coef if isinstance(t, tuple) and t and t[0] == "call" and t[1] == "len"]
+    return len(l.coef) == 1 and len(lens) == 1 and l.coef[lens[0]] == 1 and l.const >= -1
+
+
 def r_sort_net(ctx):
     # sort_no_duplicates
     fn = ctx.project.function("util", "sort_no_duplicates")
@@ -263,7 +271,7 @@ def r_sort_net(ctx):
     for r in runs:
         calls = [ev for ev in r.events_of("call") if "bubble_up" in ev.data["name"]]
         ok = len(calls) == 1 and len(calls[0].loops) == 1 and calls[0].loops[0][3][0] == "range" \
-            and canon(calls[0].loops[0][3][1]) == canon(K(0)) and "len(" in show(calls[0].loops[0][3][2]) \
+            and canon(calls[0].loops[0][3][1]) == canon(K(0)) and _passes_suffice(calls[0].loops[0][3][2]) \
             and calls[0].data["args"][0][0] == "carried"
         rv = r.retval
         ok = ok and isinstance(rv, tuple) and rv[0] == "tuple" and rv[1][0][0] == "loopout" and "bubble_up" in show(rv[1][0][4]) \
@@ -303,4 +311,80 @@ def r_buf_report(ctx):
                           f"clean_buffer_levels calls: {[[show(a)[:120] for a in c.data['args']] for c in calls]}", "processscheduler/solver.py")
 
 
-RULES = [r_buf_encoding, r_buf_pairing, r_sort_net, r_buf_report, lambda ctx: task_rules.r_drain(ctx, only=("buffers",))]
+def r_clean_paired(ctx):
+    """the reported sequence pairs level k+1 with change time k.  util.clean_buffer_levels folds simultaneous accesses (repeated
+    change times of a concurrent buffer): the two lists stay paired only if one selection decides both - the level at a position
+    is kept exactly when the change time at that position is kept, and that decision looks at the times only (the level does
+    not move at a repeated instant, but equal consecutive levels at different instants are two steps)"""
+    where = "util.clean_buffer_levels"
+    fn = ctx.project.function("util", "clean_buffer_levels")
+    p_lv, p_tm = S(fn.args.args[0].arg), S(fn.args.args[1].arg)
+    runs = runs_of(ctx, Entry("func", module="util", name="clean_buffer_levels"))
+    fails_closed(ctx, "R-CLEAN-PAIRED", runs)
+    n = 0
+    for r in runs:
+        if r.rejected:
+            continue
+        n += 1
+        rv = r.retval
+        why = None
+        shape = None
+        if not (isinstance(rv, tuple) and rv[0] == "tuple" and len(rv[1]) == 2):
+            shape = "does not return a (levels, times) pair"
+        elif p_tm not in subterms(rv[1][0]):
+            # dataflow, whatever the spelling: whether the level at a position is reported depends on whether its instant is a
+            # repeated one - the reported levels cannot be a function of the levels alone
+            why = "the reported levels do not depend on the change times (each list is cleaned on its own)"
+        else:
+            lv, tm = norm(rv[1][0]), norm(rv[1][1])
+            sel_l = [i for i in (lv[1] if lv[0] == "list" else ()) if i and i[0] == "each"]
+            sel_t = [i for i in (tm[1] if tm[0] == "list" else ()) if i and i[0] == "each"]
+            if lv[0] != "list" or tm[0] != "list" or len(sel_l) != 1 or len(sel_t) != 1:
+                shape = "levels and times are not each built by one selection over the positions"
+            elif len(tm[1]) != 1 or len(lv[1]) != 2 or lv[1][1] != sel_l[0]:
+                shape = "levels are not the initial level followed by one selection, times one selection"
+            else:
+                el, et = sel_l[0], sel_t[0]
+                first = lv[1][0]
+                if not (p_lv in subterms(first) and p_tm not in subterms(first)):
+                    why = "the first reported level is not the initial level"
+                elif el[1] != et[1]:
+                    why = "levels and times are selected by different loops"
+                elif tuple(el[2]) != tuple(et[2]):
+                    why = "levels and times are kept under different conditions"
+                else:
+                    L = el[1][-1]
+                    e = elem(L)
+                    src = L[3]
+                    zargs = src[2] if src[0] == "call" and src[1] == "zip" else None
+                    comp = {}
+                    if zargs is not None and len(zargs) == 2:
+                        for k, a in enumerate(zargs):
+                            comp[("idx", e, K(k))] = a
+                    bl, bt = el[3], et[3]
+                    ok_l = bl in comp and p_lv in subterms(comp[bl]) and p_tm not in subterms(comp[bl])
+                    ok_t = bt in comp and p_tm in subterms(comp[bt]) and p_lv not in subterms(comp[bt])
+                    if not (ok_l and ok_t):
+                        why = "the kept level / time are not the two components of the same position"
+                    else:
+                        lvl_reads = [g for g in el[2] if bl in subterms(g)]
+                        tm_reads = [g for g in el[2] if bt in subterms(g)]
+                        # (a test against the list being built may be folded away by the extractor, which does not track
+                        # loop-carried lists: only a positive read of the level is evidence)
+                        if lvl_reads:
+                            why = "the selection depends on the level; it must depend on the change time only (first occurrence of an instant)"
+        if shape is not None:
+            raise P.AnalysisError(f"R-CLEAN-PAIRED: {where}: {shape} - this way of writing the function is not modelled: "
+                                  f"{show(rv)[:200] if isinstance(rv, tuple) else rv}")
+        if why is None:
+            ctx.ok("R-CLEAN-PAIRED", f"{where}: one selection over the (level, time) positions, decided by the time, keeps both",
+                   sample={"returns": show(rv)[:300]})
+        else:
+            ctx.violation("R-CLEAN-PAIRED", where, "levels and change times selected together",
+                          f"{why}: returns {show(rv)[:360] if isinstance(rv, tuple) else rv} - the reported level k+1 no longer "
+                          f"belongs to the reported change time k when accesses coincide or consecutive levels are equal",
+                          "processscheduler/util.py")
+    ctx.floor("R-CLEAN-PAIRED", "accepting paths of clean_buffer_levels", n, 1)
+
+
+RULES = [r_buf_encoding, r_buf_pairing, r_sort_net, r_buf_report, lambda ctx: task_rules.r_drain(ctx, only=("buffers",)), r_clean_paired]
